@@ -492,7 +492,7 @@ fn small_word() -> BoxedStrategy<String> {
 }
 
 pub fn run(run: &mut Run) {
-    run.rule = "(a) curated FST / mutable / Merged[fst] / Merged[mutable,fst]: queries = dictionary words re-cased 5 ways, one-edit variants, apostrophe variants, unicode runs, empty, long (<=255): membership, exact membership, metadata, canonical spelling and all *_str twins must agree. (b) fuzzy: every dictionary of <=2 (thorough 3) words of length <=2 over {a,b,B,'} (built the way callers build them: MutableDictionary, then FstDictionary::from) x every query of length <=3 x bound 0..3 x cap {1,2,100}, random larger dictionaries, and the curated dictionary with brute-force Levenshtein as reference. (c) small_backends_agree: random dictionaries of 1-4 words over {a,b,B,é,t,s,',’,‘} (typographic apostrophes also in the stored words) as MutableDictionary, the FstDictionary built from it, Merged[mutable] and Merged[fst]: all answers agree for every stored word, its apostrophe and case variants and a random query. (d) Merged of 1-3 random children = union, first child wins. Non-trivial = query is not an entry (case/edit variant) and the dictionary has >=2 entries.".into();
+    run.rule = "(a) curated FST / mutable / Merged[fst] / Merged[mutable,fst]: queries = dictionary words re-cased 5 ways, one-edit variants, apostrophe variants, unicode runs, empty, long (<=255): membership, exact membership, metadata, canonical spelling and all *_str twins must agree. (b) fuzzy: every dictionary of <=2 (thorough 3) words of length <=2 over {a,b,B,'} (built the way callers build them: MutableDictionary, then FstDictionary::from) x every query of length <=3 x bound 0..3 x cap {1,2,100}, random larger dictionaries, dictionaries of 1-3 words of 40-90 letters queried with 0-2 edits (fuzzy_long_words), and the curated dictionary with brute-force Levenshtein as reference. (c) small_backends_agree: random dictionaries of 1-4 words over {a,b,B,é,t,s,',’,‘} (typographic apostrophes also in the stored words) as MutableDictionary, the FstDictionary built from it, Merged[mutable] and Merged[fst]: all answers agree for every stored word, its apostrophe and case variants and a random query. (d) Merged of 1-3 random children = union, first child wins. Non-trivial = query is not an entry (case/edit variant) and the dictionary has >=2 entries.".into();
 
     let n = run.n(50_000, 2_000_000);
     run.prop("curated_backends_agree", n, curated_query, test_curated_query);
@@ -558,6 +558,37 @@ pub fn run(run: &mut Run) {
         test_fuzzy,
     );
     run.require_class("fuzzy_random_dictionaries", "has_results", (n / 5) as u64);
+
+    // user, file and identifier dictionaries hold words far longer than any curated entry
+    let n = run.n(3_000, 100_000);
+    run.prop(
+        "fuzzy_long_words",
+        n,
+        || {
+            let long = (40usize..90, any::<u64>()).prop_map(|(len, salt)| {
+                (0..len).map(|i| (b'a' + (crate::core::mix(salt, i as u64) % 6) as u8) as char).collect::<String>()
+            });
+            (proptest::collection::vec(long, 1..4), any::<u16>(), proptest::collection::vec((any::<u16>(), 0u8..3, 0u8..6), 0..3), 0u8..4, prop_oneof![Just(1usize), Just(100)])
+                .prop_map(|(words, pick, edits, bound, cap)| {
+                    let mut q: Vec<char> = words[crate::core::pick_idx(pick, words.len())].chars().collect();
+                    for (pos, kind, letter) in edits {
+                        let p = crate::core::pick_idx(pos, q.len().max(1));
+                        let l = (b'a' + letter) as char;
+                        match kind {
+                            0 if q.len() > 1 => {
+                                q.remove(p);
+                            }
+                            1 => q.insert(p, l),
+                            _ => q[p] = l,
+                        }
+                    }
+                    FuzzyCase { words: Some(words), query: q.into_iter().collect(), bound, cap }
+                })
+                .boxed()
+        },
+        test_fuzzy,
+    );
+    run.require_class("fuzzy_long_words", "has_results", (n / 5) as u64);
 
     let n = run.n(2_000, 100_000);
     run.prop(
